@@ -395,6 +395,13 @@ impl Corpus for WithUuid {
     same_by_debug!();
 }
 
+/// For the typed single-object writer's `write_value` (which takes `T: Into<Value>`).
+impl From<Inner> for apache_avro::types::Value {
+    fn from(i: Inner) -> Self {
+        apache_avro::types::Value::Record(vec![("x".into(), apache_avro::types::Value::Int(i.x)), ("y".into(), apache_avro::types::Value::String(i.y))])
+    }
+}
+
 // ------------------------------------------------------------------ enums
 
 #[derive(Debug, Clone, PartialEq, Serialize, Deserialize, AvroSchema)]
